@@ -102,8 +102,10 @@ func (m *UnboundedMailbox) processHandle() {
 			}
 			m.held = msg.(vivid.Envelop)
 		}
-		// 上面检查系统队列之后、普通消息出队之前可能又有系统消息入列：它先于该普通消息进入邮箱，必须先被处理
-		if atomic.LoadInt32(&m.systemNum) > 0 {
+		// 上面检查系统队列之后、普通消息出队之前可能又有系统消息入列：它先于该普通消息进入邮箱，必须先被处理。
+		// 以队列本身而非 systemNum 判断：Enqueue 先入队、后计数，另一个发送方恰好停在这两步之间时其消息可能已被取走，
+		// 计数因此暂时少一，会掩盖此刻队列中确实存在的系统消息。
+		if !m.systemBuffer.Empty() {
 			continue
 		}
 		envelop := m.held
